@@ -116,6 +116,13 @@ pub fn yaml_chunks<R: Read>(reader: R) -> Vec<io::Result<(String, bool)>> {
 	yaml::chunks(reader)
 }
 
+/// The libyaml event stream that the YAML `Chunker` consumes: `(type, end
+/// offset, bytes pulled from the reader so far)` per event, `(255, 0, pulled)`
+/// for a parser error.
+pub fn yaml_events<R: Read>(reader: R) -> Vec<(u32, u64, u64)> {
+	yaml::events(reader)
+}
+
 /// The side of a failed transcode, with the original error values.
 pub enum TranscodeError<S, D> {
 	Ser(S, D),
